@@ -295,3 +295,308 @@ def divf_total(vals, ra, kbits, rr):
     if abs(got - want) > TOL + 16 * EPS * (want + theta(a) * 0) + 8 * N.ulp(theta(a)) / k:
         return 'a / %s: total %s, expected %s' % (mp.nstr(k, 8), mp.nstr(got, 17), mp.nstr(want, 17))
     return None
+
+# ------------------------------------------------------------------ C05 products
+def _fmul(a_bits, b_bits):
+    return fb.bits(fb.fl(a_bits) * fb.fl(b_bits))
+
+@pred
+def mul_exact(vals, ra, rb, rprod, radd):
+    a, b, p, s = vals[ra], vals[rb], vals[rprod], _A(vals[radd])
+    if _isP(p): return 'unexpected panic'
+    if p[1] != _fmul(a[1], b[1]):
+        return 'product magnitude %r is not |a|*|b| = %r' % (fb.fl(p[1]), fb.fl(a[1]) * fb.fl(b[1]))
+    if (p[2], p[3]) != (s[1], s[2]):
+        return 'product angle %r is not the sum of the angles %r' % (_A(p), s)
+    return None
+
+@pred
+def scale_enc(vals, rg, fbits, rres):
+    g, r = vals[rg], vals[rres]
+    f = fb.fl(fbits)
+    want = fb.bits(fb.fl(g[1]) * abs(f))
+    if r[1] != want:
+        return 'scale(%r): magnitude %r, expected %r' % (f, fb.fl(r[1]), fb.fl(want))
+    k = 2 if f < 0 else 0
+    if r[3] != g[3] + k or v(r[2]) != v(g[2]):
+        return 'scale(%r): angle %r -> %r, expected %d blades added, remainder kept' % (f, _A(g), _A(r), k)
+    return None
+
+@pred
+def inv_enc(vals, rg, rres):
+    g, r = vals[rg], vals[rres]
+    if _isP(r): return 'unexpected panic'
+    if r[1] != fb.bits(1.0 / fb.fl(g[1])):
+        return 'inverse magnitude %r, expected %r' % (fb.fl(r[1]), 1.0 / fb.fl(g[1]))
+    if r[3] != g[3] + 2 or v(r[2]) != v(g[2]):
+        return 'inverse angle %r -> %r: expected exactly 2 blades added' % (_A(g), _A(r))
+    return None
+
+@pred
+def normalize_enc(vals, rg, rres):
+    g, r = vals[rg], vals[rres]
+    if _isP(r): return 'unexpected panic'
+    if r[1] != fb.bits(1.0) or (r[2], r[3]) != (g[2], g[3]):
+        return 'normalize: %r -> %r' % (g, r)
+    return None
+
+@pred
+def pow_mag(vals, rg, nbits, rres):
+    g, r = vals[rg], vals[rres]
+    want = mp.power(v(g[1]), v(nbits)) if v(g[1]) > 0 else None
+    if want is None: return None
+    if not (mp.mpf('1e-300') < want < mp.mpf('1e300')): return None
+    if not fb.is_finite_bits(r[1]) or abs(v(r[1]) - want) > 4 * EPS * want:
+        return 'pow magnitude %s, expected %s' % (mp.nstr(v(r[1]), 17), mp.nstr(want, 17))
+    return None
+
+@pred
+def geonum_close(vals, r1, r2, k):
+    """same angle total within k tolerances, magnitudes within 8 ulps relative"""
+    a, b = vals[r1], vals[r2]
+    if _isP(a) or _isP(b): return 'unexpected panic'
+    ma, mb = v(a[1]), v(b[1])
+    if abs(ma - mb) > 8 * EPS * max(abs(ma), abs(mb)):
+        return 'magnitudes %s vs %s' % (mp.nstr(ma, 17), mp.nstr(mb, 17))
+    A1, B1 = _A(a), _A(b)
+    err = mp.mpf(A1[2] - B1[2]) * HALF + v(A1[1]) - v(B1[1])
+    if abs(err) > k * TOL + 32 * EPS:
+        return 'angle totals differ by %s' % mp.nstr(err, 5)
+    return None
+
+@pred
+def angle_part_equal(vals, rg, ra):
+    """the angle of a geonum register is bit-equal to an angle register"""
+    g, a = _A(vals[rg]), _A(vals[ra])
+    if g != a: return 'angle %r differs from %r' % (g, a)
+    return None
+
+@pred
+def mag_bits_equal(vals, r1, r2):
+    if vals[r1][1] != vals[r2][1]:
+        return 'magnitude changed: %r -> %r' % (fb.fl(vals[r1][1]), fb.fl(vals[r2][1]))
+    return None
+
+# ------------------------------------------------------------------ C07 steps
+@pred
+def steps(vals, rb, ra, k):
+    b, a = vals[rb], vals[ra]
+    if _isP(a): return 'unexpected panic'
+    B, A = _A(b), _A(a)
+    if A[2] != B[2] + k or v(A[1]) != v(B[1]):
+        return 'expected exactly %d blades added with the remainder untouched: %r -> %r' % (k, B, A)
+    if b[0] == 'G' and a[0] == 'G' and a[1] != b[1]:
+        return 'magnitude changed by a blade-step operator: %r -> %r' % (fb.fl(b[1]), fb.fl(a[1]))
+    return None
+
+@pred
+def base_enc(vals, rb, ra):
+    B, A = _A(vals[rb]), _A(vals[ra])
+    if A[2] != B[2] % 4 or A[1] != B[1]:
+        return 'base_angle: %r -> %r' % (B, A)
+    if vals[rb][0] == 'G' and vals[ra][1] != vals[rb][1]: return 'base_angle changed the magnitude'
+    return None
+
+@pred
+def grade_is(vals, ra, rres):
+    A, g = _A(vals[ra]), vals[rres]
+    if g != ('U', A[2] % 4): return 'grade of blade %d reported as %r' % (A[2], g)
+    return None
+
+@pred
+def is_grade_flags(vals, ra, rs):
+    A = _A(vals[ra])
+    for k, r in enumerate(rs):
+        if vals[r] != ('B', A[2] % 4 == k):
+            return 'is-grade-%d flag %r for blade %d' % (k, vals[r], A[2])
+    return None
+
+@pred
+def grade_angle_val(vals, ra, rres):
+    A, x = _A(vals[ra]), vals[rres]
+    if not fb.is_finite_bits(x[1]): return 'grade_angle not finite'
+    got = v(x[1])
+    if got < 0 or got >= 2 * PI: return 'grade_angle %s outside [0, 2pi)' % mp.nstr(got, 17)
+    if abs(got - direction(A)) > 8 * EPS:
+        return 'grade_angle %s, expected %s' % (mp.nstr(got, 17), mp.nstr(direction(A), 17))
+    return None
+
+@pred
+def copy_blade_enc(vals, rg, ro, rres):
+    g, o, r = vals[rg], vals[ro], vals[rres]
+    if r[1] != g[1] or v(r[2]) != v(g[2]): return 'copy_blade changed magnitude or remainder: %r -> %r' % (g, r)
+    if o[3] >= g[3]:
+        if r[3] != o[3]: return "copy_blade: blade %d, expected the other's blade %d" % (r[3], o[3])
+    else:
+        if r[3] % 4 != o[3] % 4 or not (g[3] <= r[3] <= g[3] + 6):
+            return "copy_blade to a smaller blade: %d -> %d (target %d)" % (g[3], r[3], o[3])
+    return None
+
+@pred
+def opposite_iff(vals, ra, rb, rres):
+    A, B, x = _A(vals[ra]), _A(vals[rb]), vals[rres]
+    if _isP(x): return 'is_opposite panicked'
+    d = abs(A[2] - B[2])
+    gap = abs(v(A[1]) - v(B[1]))
+    if d == 2 and gap == 0 and x != ('B', True): return 'blades differ by two with equal remainders but is_opposite is false'
+    if d != 2 and x != ('B', False): return 'is_opposite true for blades %d and %d' % (A[2], B[2])
+    if gap > mp.mpf('2e-15') and x != ('B', False): return 'is_opposite true for remainders %s apart' % mp.nstr(gap, 5)
+    return None
+
+@pred
+def history_total(vals, r, num, den):
+    """accumulated quarter turns equal the exact rational prediction num/den"""
+    A = _A(vals[r])
+    m = canon_msg(A)
+    if m: return m
+    want = mp.mpf(num) / den
+    got = mp.mpf(A[2]) + v(A[1]) / HALF
+    if abs(got - want) > mp.mpf('1e-9'):
+        return 'accumulated %s quarter turns, predicted %s' % (mp.nstr(got, 17), mp.nstr(want, 17))
+    fl = num // den
+    fr = mp.mpf(num % den) / den
+    if mp.mpf('1e-6') < fr < 1 - mp.mpf('1e-6') and A[2] != fl:
+        return 'blade %d, predicted %d' % (A[2], fl)
+    if num % den == 0 and (A[2] != fl or v(A[1]) > mp.mpf('1e-9')):
+        return 'blade %d rem %s, predicted exactly %d quarter turns' % (A[2], mp.nstr(v(A[1]), 5), fl)
+    return None
+
+# ------------------------------------------------------------------ C16 equality / order
+def _key(x):
+    if x[0] == 'A': return (x[2], v(x[1]))
+    return (x[3], v(x[2]), v(x[1]))
+
+def _cmp(a, b):
+    ka, kb = _key(a), _key(b)
+    return 0 if ka < kb else (1 if ka == kb else 2)
+
+@pred
+def cmp_expected(vals, ra, rb, rs):
+    want = _cmp(vals[ra], vals[rb])
+    for r in rs:
+        if vals[r] != ('O', want): return 'comparison gave %r, lexicographic order says %d' % (vals[r], want)
+    return None
+
+@pred
+def rel_expected(vals, ra, rb, rs):
+    c = _cmp(vals[ra], vals[rb])
+    want = [c == 0, c != 2, c == 2, c != 0]
+    for k, r in enumerate(rs):
+        if vals[r] != ('B', want[k]): return 'relational operator %d gave %r, expected %s' % (k, vals[r], want[k])
+    return None
+
+@pred
+def eq_implies(vals, ra, rb, req, rne):
+    a, b, e = vals[ra], vals[rb], vals[req]
+    if vals[rne] != ('B', not e[1]): return '!= is not the negation of =='
+    A, B = _A(a), _A(b)
+    same = A[2] == B[2] and v(A[1]) == v(B[1]) and (a[0] == 'A' or v(a[1]) == v(b[1]))
+    if same and not e[1]: return 'numerically identical values compare unequal'
+    if e[1]:
+        if A[2] != B[2]: return 'equal although blades differ: %d vs %d' % (A[2], B[2])
+        if abs(v(A[1]) - v(B[1])) >= mp.mpf('1.0000001e-15'): return 'equal although remainders differ by %s' % mp.nstr(abs(v(A[1]) - v(B[1])), 5)
+        if a[0] == 'G' and v(a[1]) != v(b[1]): return 'equal although magnitudes differ'
+    return None
+
+@pred
+def eq_iff_cmp_equal(vals, ra, rb, req, rcmp):
+    e, c = vals[req], vals[rcmp]
+    if e[1] != (c[1] == 1):
+        return '== says %s but cmp says %s' % (e[1], ['Less', 'Equal', 'Greater', 'None'][c[1]])
+    return None
+
+@pred
+def sorted_perm(vals, rin, rout):
+    i, o = vals[rin], vals[rout]
+    if _isP(o): return 'sort panicked'
+    if sorted(i[1]) != sorted(o[1]): return 'sort output is not a permutation of its input'
+    ks = [(g[2], v(g[1]), v(g[0])) for g in o[1]]
+    for j in range(len(ks) - 1):
+        if ks[j] > ks[j + 1]: return 'sort output not in non-decreasing order at index %d' % j
+    return None
+
+# ------------------------------------------------------------------ C17 collections
+@pred
+def same_coll(vals, rs):
+    for r in rs[1:]:
+        if vals[r] != vals[rs[0]]: return 'collection content changed: r%d vs r%d' % (rs[0], r)
+    return None
+
+@pred
+def coll_is(vals, rc, regs):
+    c = vals[rc]
+    want = [tuple(vals[r][1:4]) for r in regs]
+    if c[0] != 'C' or [tuple(g) for g in c[1]] != want:
+        return 'collection %r differs from element-wise reference %r' % (c, want)
+    return None
+
+@pred
+def len_is(vals, rc, rlen, rempty):
+    n = len(vals[rc][1])
+    if vals[rlen] != ('U', n) or vals[rempty] != ('B', n == 0): return 'len/is_empty wrong: %r %r for %d members' % (vals[rlen], vals[rempty], n)
+    return None
+
+@pred
+def truncate_ref(vals, rc, tbits, rres):
+    t = fb.fl(tbits)
+    want = [tuple(g) for g in vals[rc][1] if fb.fl(g[0]) > t]
+    got = [tuple(g) for g in vals[rres][1]]
+    if got != want: return 'truncate(%r): kept %d members, reference keeps %d' % (t, len(got), len(want))
+    return None
+
+@pred
+def cone_ref(vals, rc, rdir, hbits, rres):
+    d = vals[rdir]
+    h = v(hbits)
+    got = [tuple(g) for g in vals[rres][1]]
+    members = [tuple(g) for g in vals[rc][1]]
+    # subsequence check
+    it = iter(members)
+    for g in got:
+        for m in it:
+            if m == g: break
+        else:
+            return 'cone selection is not an order-preserving subsequence'
+    band = mp.mpf('1e-7')
+    j = 0
+    for m in members:
+        kept = j < len(got) and got[j] == m
+        if kept: j += 1
+        G = ('G',) + m
+        if v(m[0]) == 0 or v(d[1]) == 0 or fb.fl(m[0]) * fb.fl(d[1]) == 0.0:
+            if kept: return 'zero-magnitude member or axis selected'
+            continue
+        ang = angdiff(direction(_A(G)), direction(_A(d)))
+        if ang < h - band and not kept: return 'member at unsigned angle %s <= half-angle %s dropped' % (mp.nstr(ang, 12), mp.nstr(h, 12))
+        if ang > h + band and kept: return 'member at unsigned angle %s > half-angle %s kept' % (mp.nstr(ang, 12), mp.nstr(h, 12))
+    return None
+
+@pred
+def total_ref(vals, rc, rres):
+    ms = [v(g[0]) for g in vals[rc][1]]
+    want = sum(ms, mp.mpf(0))
+    got = v(vals[rres][1])
+    if abs(got - want) > (len(ms) + 1) * EPS * (want + mp.mpf(5e-324)):
+        return 'total magnitude %s, sum of members %s' % (mp.nstr(got, 17), mp.nstr(want, 17))
+    return None
+
+@pred
+def dominant_ref(vals, rc, rres):
+    c, d = vals[rc][1], vals[rres]
+    if _isP(d): return 'dominant panicked'
+    if not c:
+        return None if d == ('OG', None) else 'dominant of an empty collection is %r' % (d,)
+    if d[1] is None: return 'dominant returned None for a non-empty collection'
+    if tuple(d[1]) not in [tuple(g) for g in c]: return 'dominant is not a member'
+    mx = max(v(g[0]) for g in c)
+    if v(d[1][0]) != mx: return 'dominant magnitude %s, maximum is %s' % (mp.nstr(v(d[1][0]), 17), mp.nstr(mx, 17))
+    return None
+
+@pred
+def index_ref(vals, rc, i, rres):
+    c = vals[rc][1]
+    if i < len(c):
+        if vals[rres] != ('G',) + tuple(c[i]): return 'index %d returned %r' % (i, vals[rres])
+    elif not _isP(vals[rres]):
+        return 'out-of-bounds index %d did not panic' % i
+    return None
